@@ -274,7 +274,7 @@ Fixpoint bb_count (fuel : nat) (n : nat) (G : mat Z) (d : Z) (NPd NSPd NSP L : m
     | O => None
     | S f =>
       let d1 := d + 1 in
-      let NPd1 := tab 0 n n (mmulZ n NPd G) in
+      let NPd1 := tab 0 n n (mmulZ n NSPd G) in
       let NSPd1 := tab 0 n n (fun i j => NPd1 i j * b2z (Z.eqb (L i j) 0)) in
       let NSP1 := tab 0 n n (fun i j => NSP i j + NSPd1 i j) in
       let L1 := tab 0 n n (fun i j => L i j + d1 * b2z (nzb (NSPd1 i j))) in
